@@ -10,6 +10,7 @@ import (
 	"net/url"
 	"strings"
 	"sync/atomic"
+	"time"
 
 	rt "github.com/go-openapi/runtime"
 	"github.com/go-openapi/runtime/client"
@@ -29,6 +30,9 @@ type OpDefaults struct {
 	// OpCtx: the operation carries exactly context.Background() / context.TODO() while the transport-wide
 	// context is already cancelled: the operation's (live) context governs the call
 	OpCtx string `json:"op_context,omitempty"` // "" | background | todo
+	// RtExpired: with OpCtx set, the transport-wide context is not cancelled but carries a deadline that is long past;
+	// the request timeout stays the default one
+	RtExpired bool `json:"runtime_context_deadline_expired,omitempty"`
 }
 
 type countingRT struct {
@@ -90,18 +94,29 @@ func runOpDefaults(m *mon.M, c *OpDefaults) {
 	}
 	if c.OpCtx != "" {
 		dead, cancel := context.WithCancel(context.Background())
+		if c.RtExpired {
+			dead, cancel = context.WithDeadline(context.Background(), time.Unix(1000000000, 0))
+		}
 		cancel()
 		r.Context = dead
 	}
 	var err error
 	pv, st := mon.Catch(func() { _, err = r.Submit(op) })
-	m.NT(fmt.Sprintf("op-client-defaults|%v|%v|%v|%s", c.OpJar, c.Warm, c.OpTransport, c.OpCtx))
+	fp := fmt.Sprintf("op-client-defaults|%v|%v|%v|%s", c.OpJar, c.Warm, c.OpTransport, c.OpCtx)
+	if c.RtExpired {
+		fp += "|runtime-deadline-expired"
+	}
+	m.NT(fp)
 	if pv != nil {
 		m.Violate("op-client-defaults/panic", fmt.Sprintf("%v\n%s", pv, st), c)
 		return
 	}
 	if err != nil && c.OpCtx != "" {
-		m.Violate("op-context-ignored/plain-"+c.OpCtx, fmt.Sprintf("the operation carries context.%s() (live) and the transport-wide context is cancelled: the call failed with %v", map[string]string{"background": "Background", "todo": "TODO"}[c.OpCtx], err), c)
+		sig, how := "op-context-ignored/plain-"+c.OpCtx, "cancelled"
+		if c.RtExpired {
+			sig, how = sig+"+runtime-deadline-expired", "past its deadline"
+		}
+		m.Violate(sig, fmt.Sprintf("the operation carries context.%s() (live) and the transport-wide context is %s: the call failed with %v", map[string]string{"background": "Background", "todo": "TODO"}[c.OpCtx], how, err), c)
 		return
 	}
 	if err != nil {
